@@ -56,13 +56,23 @@ Theorem C18_faithful_default_le4 : forall sig start, let A := mk_default sig sta
 Proof. exact C18_faithful_le4. Qed.
 Print Assumptions C18_faithful_default_le4.
 
-(* custom bases: REFUTED for the faithful model (known finding F10): the matrix basis is ordered by
-   signature index and combinations of generators, a custom basis orders/spells blades differently *)
-Theorem C18_custom_basis_refuted :
-  match mk_custom (sig_of_pqr 2 0 1) [[];[1];[2];[0];[2;0];[0;1];[1;2];[0;1;2]]%nat false with
-  | Ok A => hom_ok A | Err _ => true end = false.
-Proof. vm_compute. reflexivity. Qed.
-Print Assumptions C18_custom_basis_refuted.
+(* custom bases (after the repair of finding F10 in /repo: blade matrices are built along the blade names): the named
+   algebras 2DPGA, 3DPGA and a basis with permuted generators and spellings pass the same blade-level check; every
+   custom basis explored by the correspondence is checked the same way on every run, and the unbounded theorems
+   below apply to each algebra that passes *)
+Theorem C18_custom_bases_hom :
+  res_hom_ok named_2dpga = true /\ res_hom_ok named_3dpga = true /\ res_hom_ok custom_cl111 = true.
+Proof. exact hom_ok_named_custom. Qed.
+Print Assumptions C18_custom_bases_hom.
+
+(* the model's single definition of matrix_basis (products along the names) is, on default algebras, the list of
+   matrices the code's default branch (combinations of the generators) builds *)
+Theorem C18_default_branch_le4 : forall sig start,
+  (1 <= length sig <= 4)%nat -> Forall (fun s => s = 1 \/ s = -1 \/ s = 0) sig ->
+  (start = 0 \/ start = 1 \/ start = 2) ->
+  matrix_basis (mk_default sig start false) = matrix_basis_default_branch (mk_default sig start false).
+Proof. exact matrix_basis_default_branch_le4. Qed.
+Print Assumptions C18_default_branch_le4.
 
 (* ---- source pins: the functions whose hand-written model carries the theorems above are still, textually (after
    ast normalisation), the functions the model was validated against; an edit breaks Bridge/Pins_C18.v ---- *)
